@@ -112,8 +112,9 @@ def gen_unit(u):
 
 QUICK = [(["id"], 3, 1), (["id"], 4, 0), (["sum"], 3, 1), (["max", "logsumexp"], 2, 1), (["add"], 2, 0), (["add"], 1, 1), (["where"], 1, 1), (["dot"], 3, 0), (["get_at"], 3, 0), (["get_at"], 1, 1),
          (["add_at"], 3, 0), (["set_at"], 2, 0), (["add_at"], 1, 1), (["flip", "argmax"], 3, 1), (["softmax", "roll", "sort", "argsort"], 2, 1)]
-THOROUGH = [(["id"], 3, 2), (["id"], 4, 1), (["sum", "max", "mean", "logsumexp", "var"], 3, 1), (["sum"], 3, 2), (["add", "subtract", "where"], 2, 1), (["add"], 3, 0), (["dot"], 3, 1), (["get_at"], 3, 1),
-            (["add_at", "set_at", "subtract_at"], 2, 1), (["add_at"], 3, 0), (["flip", "argmax", "softmax", "roll", "sort", "argsort", "log_softmax", "argmin"], 3, 1)]
+THOROUGH = [(["id"], 3, 1), (["id"], 4, 1), (["id"], 2, 2), (["sum", "max", "mean", "logsumexp", "var"], 3, 1), (["add", "subtract"], 2, 1), (["where"], 2, 0), (["where"], 1, 1), (["add"], 3, 0), (["dot"], 3, 0),
+            (["dot"], 2, 1), (["get_at"], 3, 0), (["get_at"], 2, 1), (["add_at", "set_at"], 3, 0), (["add_at", "subtract_at"], 2, 1), (["flip", "argmax", "softmax", "roll", "sort"], 3, 1),
+            (["argsort", "log_softmax", "argmin"], 2, 1)]
 
 
 def run(ctx):
